@@ -67,6 +67,32 @@ def antimeridianX (xs : List Rat) (shift : Rat) : Rat × Rat :=
 /-- longitudes with missing navigation (NaN = `none`): `np.nanmin / np.nanmax` of `lons % 360` -/
 def antimeridianXN (xs : List (Option Rat)) (shift : Rat) : Rat × Rat := antimeridianX (xs.filterMap id) shift
 
+/-! ### what `freeze` keeps of what it was given -/
+
+/-- the plan `DynamicAreaDefinition.freeze` makes before any geometry is computed: an explicit argument wins over the instance's
+value; `compute_domain` is asked only when the extent or a dimension is missing (`None` or 0), and it then gets the resolution
+and — only if both dimensions are known — the shape -/
+structure FreezePlan where
+  res    : Option Rat                         -- resolution handed to `compute_domain`
+  shape  : Option (Option Int × Option Int)   -- shape handed to `compute_domain` (`None` unless both dimensions are given)
+  height : Option Int
+  width  : Option Int
+  extent : Option (Rat × Rat × Rat × Rat)
+  need   : Bool                               -- is the domain computed from the data at all?
+deriving Repr, DecidableEq
+
+def dimGiven : Option Int → Bool
+  | some v => v ≠ 0
+  | none => false
+
+def freezePlan (argRes selfRes : Option Rat) (argShape : Option (Option Int × Option Int)) (selfShape : Option Int × Option Int)
+    (selfExtent : Option (Rat × Rat × Rat × Rat)) : FreezePlan :=
+  let shp := argShape.getD selfShape
+  { res := argRes.orElse (fun _ => selfRes),
+    shape := if shp.1.isNone || shp.2.isNone then none else some shp,
+    height := shp.1, width := shp.2, extent := selfExtent,
+    need := selfExtent.isNone || !dimGiven shp.2 || !dimGiven shp.1 }
+
 /-! ### driver -/
 open Wire
 
